@@ -21,6 +21,10 @@ HARNESS = os.path.join(VERIF, "harness")
 EVIDENCE = os.path.join(VERIF, "evidence")
 REPLAYS = os.path.join(VERIF, "replays")
 NCPU = os.cpu_count() or 4
+# VERIF_COVER=<dir>: build every harness / tool binary with -cover over the csproto packages and collect the counters there
+# (bin/cover reports which csproto functions the conformance runs actually execute)
+COVER = os.environ.get("VERIF_COVER")
+COVER_FLAGS = ["-cover", "-coverpkg=github.com/CrowdStrike/csproto/..."] if COVER else []
 
 
 class Inconclusive(Exception):
@@ -33,6 +37,9 @@ def env():
         "GOFLAGS": "-mod=mod", "GOPROXY": "off", "GOSUMDB": "off", "GOTOOLCHAIN": "local",
         "JAVA_TOOL_OPTIONS": "-Xss512m",
     })
+    if COVER:
+        os.makedirs(COVER, exist_ok=True)
+        e["GOCOVERDIR"] = COVER
     return e
 
 
@@ -89,7 +96,7 @@ def build_harness(scratch, name, tags="verif", race=False):
     if not os.path.exists(gosum):
         shutil.copy(os.path.join(REPO, "go.sum"), gosum)
     out = scratch.path("bin-" + name + ("-race" if race else ""))
-    cmd = ["go", "build", "-tags", tags, "-o", out]
+    cmd = ["go", "build", "-tags", tags, "-o", out] + COVER_FLAGS
     if race:
         cmd.append("-race")
     cmd.append("./cmd/" + name)
@@ -131,6 +138,20 @@ def tlc_mc(scratch, module, cfg, workers=None, timeout=1800, label=None):
     depth = re.search(r"depth of the complete state graph search is (\d+)", out)
     return {"module": module, "cfg": cfg, "transitions": int(m.group(1)), "states": int(m.group(2)),
             "depth": int(depth.group(1)) if depth else 0, "seconds": round(time.time() - t0, 1)}
+
+
+def tlaps_prove(scratch, module, deps, theorem):
+    """Run the TLA+ proof system on spec/proofs/<module>.tla; returns the number of obligations proved."""
+    d = scratch.sub("tlaps-" + module)
+    for f in deps:
+        shutil.copy(os.path.join(SPEC, f), d)
+    shutil.copy(os.path.join(SPEC, "proofs", module + ".tla"), d)
+    p = run(["tlapm", "--threads", str(NCPU), module + ".tla"], cwd=d, timeout=900, check=False)
+    m = re.search(r"All (\d+) obligations? proved", p.stdout or "")
+    if not m:
+        raise Inconclusive("tlapm did not prove %s: %s" % (module, (p.stdout or "")[-800:]))
+    return {"module": "proofs/%s.tla" % module, "obligations_proved": int(m.group(1)),
+            "theorem": theorem}
 
 
 def tlc_trace_one(d, module, cfg, timeout):
